@@ -17,7 +17,8 @@ Trusted mapping of primitives:
   x.rewind()                                  -> sk S x (FromStart 0)                     (std: seek(SeekFrom::Start(0)))
   io::BufReader::new(&mut x)                  -> x         (TRANSPARENT: the same bytes in the same order; its read-ahead
                                                  is not visible to the function, which owns the reader until it returns)
-  ArchiveFileBlock::from(x)                   -> Blocks.parse_block ... S x   (the one trusted link to the block parser)
+  ArchiveFileBlock::from(x)                   -> Src3b.ArchiveFileBlock_from ... S x: the TRANSLATED block parser (tools/src2v3_block.py;
+                                                 = Blocks.parse_block by SrcTie3Block.block_from_src — no longer a trusted link)
   (&mut x).take(n)                            -> a Take over x with limit n (a local: the limit left after a copy is n - copied)
   io::copy(take, w)                           -> io_copy_take fuel x limit [] (std's generic copy: reads of at most 8192 bytes,
                                                  each handed to w with write_all, until the limit or a read of 0 bytes; Take's
@@ -423,9 +424,10 @@ Definition writer_receive (e : Export) (w d : bytes) : Export := mkExport (ex_ke
 Section LinearSrc.
   Variable S : Stream.
   Variables FNMAX T_START T_CONTENT T_EOA T_EOF : N.
-  (* ArchiveFileBlock::from: the block parser of Blocks.v (its own source text is frozen by
-     SrcTie2Events.EV_block_from_shape) *)
-  Notation ArchiveFileBlock_from := (parse_block FNMAX T_START T_CONTENT T_EOA T_EOF S).
+  (* ArchiveFileBlock::from: the TRANSLATED block parser of gen/Src3b.v (tools/src2v3_block.py; equal to
+     Blocks.parse_block by SrcTie3Block.block_from_src).  636 labels the arm "read_exact(1) holds another
+     number of bytes", which is never taken (SrcTie3Block.block_from_site_irrelevant) *)
+  Notation ArchiveFileBlock_from := (Src3b.ArchiveFileBlock_from S FNMAX T_START T_CONTENT T_EOA T_EOF 636).
   Notation ArchiveReader := (Src3d.ArchiveReader S).
 
   (* std::io::copy(&mut x.take(limit), w): reads of at most DEFAULT_BUF_SIZE = 8192 bytes (Take::read asks for
@@ -553,7 +555,7 @@ def stream_writer_items(helpers):
 
 def generate():
     out = ["(* GENERATED by tools/src2v3_linear.py from %s — do not edit. *)" % REPO,
-           "From MLA Require Import Base Stream Blocks.", "From MLAGen Require Import Src3d.", "Open Scope N_scope.", PREAMBLE]
+           "From MLA Require Import Base Stream Blocks.", "From MLAGen Require Src3b.", "From MLAGen Require Import Src3d.", "Open Scope N_scope.", PREAMBLE]
     helpers = strip_tests(read_file("mla/src/helpers.rs"))
     try:
         out.append("  " + linear_extract_item(helpers))
